@@ -198,6 +198,11 @@ impl<'a> InteriorNode<'a> {
             self.cell_count()
         );
         let offset = self.slot_offset(index);
+        ensure!(
+            offset + INTERIOR_SLOT_SIZE <= self.data.len(),
+            "slot {} lies beyond the page (corrupted cell count)",
+            index
+        );
         InteriorSlot::ref_from_bytes(&self.data[offset..offset + INTERIOR_SLOT_SIZE])
             .map_err(|e| eyre::eyre!("failed to read interior slot at index {}: {:?}", index, e))
     }
@@ -327,6 +332,11 @@ impl<'a> InteriorNodeMut<'a> {
             self.cell_count()
         );
         let offset = self.slot_offset(index);
+        ensure!(
+            offset + INTERIOR_SLOT_SIZE <= self.data.len(),
+            "slot {} lies beyond the page (corrupted cell count)",
+            index
+        );
         InteriorSlot::ref_from_bytes(&self.data[offset..offset + INTERIOR_SLOT_SIZE])
             .map_err(|e| eyre::eyre!("failed to read interior slot at index {}: {:?}", index, e))
     }
@@ -455,6 +465,11 @@ impl<'a> InteriorNodeMut<'a> {
         );
 
         let offset = self.slot_offset(index);
+        ensure!(
+            offset + INTERIOR_SLOT_SIZE <= self.data.len(),
+            "slot {} lies beyond the page (corrupted cell count)",
+            index
+        );
         // Update the child_page field (offset 4, 4 bytes)
         // InteriorSlot structure: prefix(4) | child_page(4) | offset(2) | key_len(2)
         let child_offset = offset + 4;
